@@ -21,9 +21,20 @@ FAMILIES = [
 ]
 
 
+def gen_common(r):
+    """an XdY term in any spelling: sides written or left out, keep/drop modifier, min/max clamp"""
+    n = r.randint(2, 6)
+    t = str(n) + r.choice("dD") + r.choice(["", "", "6", "20", "100"])
+    if r.random() < 0.5:
+        t += r.choice(["k", "kh", "kl", "dh", "dl", "q"]) + str(r.randint(1, n))
+    if r.random() < 0.6:
+        t += r.choice(["min", "max"]) + str(r.randint(1, 12))
+    return ("", t)
+
+
 def gen_prog(r):
     k = r.randint(1, 3)
-    picks = [r.choice(FAMILIES) for _ in range(k)]
+    picks = [gen_common(r) if r.random() < 0.3 else r.choice(FAMILIES) for _ in range(k)]
     cfg = "".join(sorted(set("".join(p[0] for p in picks))))
     src = "; ".join(p[1] for p in picks)
     # function/computed names must be unique per program
